@@ -137,7 +137,12 @@ type c14Served struct {
 func c14Run(ci any) Result {
 	c := ci.(*c14Case)
 	e := echo.New()
-	e.Use(middleware.BodyLimit(c.LimitStr))
+	if len(c.Reqs)%2 == 0 {
+		e.Use(middleware.BodyLimit(c.LimitStr))
+	} else {
+		// the same middleware through its other constructor (no Skipper given: the default one is filled in)
+		e.Use(middleware.BodyLimitWithConfig(middleware.BodyLimitConfig{Limit: c.LimitStr}))
+	}
 	h := func(ctx echo.Context) error {
 		st := ctx.Request().Context().Value(c14Key{}).(*c14State)
 		st.ran = true
